@@ -248,6 +248,57 @@ static std::string op_decver(const std::vector<std::string> &a, bool dec)
   return o.str();
 }
 
+// ---- abstract pipeline: the buffer group and worker threads with tagging stream objects ----
+// stream s marks the n-th block it sees: bytes 0..7 ^= s+1, byte 8 ^= n (mod 256)
+class TagMode : public Aesmode
+{
+  int s;
+  unsigned n;
+
+public:
+  TagMode(const u8_t *iv, int s) : Aesmode(iv), s(s), n(0) {}
+  virtual void runcry(u8_t *block) override
+  {
+#ifdef WENCRY_VERIF_SHIM_H
+    vsched::log_event(WV_EV_RUNCRY, s, n);
+#endif
+    for (int i = 0; i < 8; ++i)
+      block[i] ^= (u8_t)(s + 1);
+    block[8] ^= (u8_t)n;
+    n++;
+  }
+};
+// pipe T ISPADDING INPUT
+static std::string op_pipe(const std::vector<std::string> &a)
+{
+  int T = atoi(a[1].c_str());
+  bool ispadding = atoi(a[2].c_str()) != 0;
+  bytes input = unhex(a[3]);
+  std::string inpath = write_tmp(input);
+  FILE *fin = fopen(inpath.c_str(), "rb");
+  memfile out;
+  FILE *fo = open_mem(&out, "w+", false);
+  u8_t iv[16] = {0};
+  std::vector<Aesmode *> modes;
+  for (int i = 0; i < T; ++i)
+    modes.push_back(new TagMode(iv, i));
+  buffergroup *g = buffergroup::get_instance();
+  g->set_buffergroup(T, fin, fo, ispadding);
+  multicry_master crym(T);
+#ifdef WENCRY_VERIF_SHIM_H
+  vsched::log_event(20, T, 0);
+#endif
+  crym.run_multicry(modes.data(), [](std::string, size_t) -> void {});
+#ifdef WENCRY_VERIF_SHIM_H
+  vsched::log_event(21, T, 0);
+#endif
+  buffergroup::del_instance();
+  fflush(fo);
+  fclose(fin);
+  unlink(inpath.c_str());
+  return "OK " + hex(out.data);
+}
+
 static std::vector<std::string> split(const std::string &s, char sep)
 {
   std::vector<std::string> v;
@@ -267,21 +318,33 @@ static std::string run_fileop(const std::vector<std::string> &a)
     return op_decver(a, true);
   if (a[0] == "ver")
     return op_decver(a, false);
+  if (a[0] == "pipe")
+    return op_pipe(a);
   return "?";
 }
 
 // runs f in a forked child with a watchdog; the child prints its own result
+static std::string child_opts; // "k=v,k=v" environment for the child (scheduler seed/replay/log)
 static void isolated(const std::string &id, const std::vector<std::vector<std::string>> &ops)
 {
   fflush(res);
   pid_t pid = fork();
   if (pid == 0)
   {
+    for (auto &kv : split(child_opts, ','))
+    {
+      size_t e = kv.find('=');
+      if (e != std::string::npos)
+        setenv(kv.substr(0, e).c_str(), kv.substr(e + 1).c_str(), 1);
+    }
     std::string r;
     for (size_t i = 0; i < ops.size(); ++i)
       r += (i ? " ; " : "") + run_fileop(ops[i]);
     fprintf(res, "%s %s\n", id.c_str(), r.c_str());
     fflush(res);
+#ifdef WENCRY_VERIF_SHIM_H
+    vsched::finish("OK");
+#endif
     _exit(0);
   }
   int status = 0;
@@ -304,6 +367,12 @@ static void isolated(const std::string &id, const std::vector<std::vector<std::s
   }
   if (WIFSIGNALED(status))
     fprintf(res, "%s CRASH sig=%d\n", id.c_str(), WTERMSIG(status));
+  else if (WEXITSTATUS(status) == 42)
+    fprintf(res, "%s DEADLOCK\n", id.c_str());
+  else if (WEXITSTATUS(status) == 43)
+    fprintf(res, "%s LIVELOCK\n", id.c_str());
+  else if (WEXITSTATUS(status) == 44)
+    fprintf(res, "%s REPLAY-DIVERGED\n", id.c_str());
   else if (WEXITSTATUS(status) != 0)
     fprintf(res, "%s EXIT %d\n", id.c_str(), WEXITSTATUS(status));
   fflush(res);
@@ -493,7 +562,15 @@ int main(int argc, char **argv)
       continue;
     std::string id = w[0];
     std::vector<std::string> a(w.begin() + 1, w.end());
-    if (a[0] == "enc" || a[0] == "dec" || a[0] == "ver")
+    child_opts.clear();
+    if (a[0][0] == '@')
+    {
+      child_opts = a[0].substr(1);
+      a.erase(a.begin());
+      if (a.empty())
+        continue;
+    }
+    if (a[0] == "enc" || a[0] == "dec" || a[0] == "ver" || a[0] == "pipe")
     {
       isolated(id, {a});
     }
